@@ -37,6 +37,12 @@ Proof. exact decode_prefix. Qed.
 Theorem c05_constants_tied : consts_tied = true.
 Proof. vm_compute. reflexivity. Qed.
 
+(* the connection structs of the source have exactly the fields the models carry as state (regenerated field
+   names): receive buffer + verification flag; the tokio one also the outstanding reply and its packet *)
+Theorem c05_model_state_is_the_struct : state_tied = true.
+Proof. vm_compute. reflexivity. Qed.
+
+
 (* non-vacuity: a two-frame session split in the middle of a frame, with a transient error *)
 Example c05_example :
   run_session Compressed true [([3;0;0], (0, CKeep)); ([3;1;2], (1, COther))]
